@@ -21,7 +21,7 @@ def accepted_set(db, f):
     state = {"S": [trange(Fr)], "n": 0}
     env = {}
     fin = []
-    ev = Evaluator({var}, env)
+    ev = Evaluator({var}, env, db=db)
 
     class H(Hooks):
         def check(self, cond, positive, loc):
